@@ -396,6 +396,24 @@ Proof.
   intros H. apply elem_of_list_fmap in H as [[a v] [-> _]]. exact I.
 Qed.
 
+(* the entity part of the snapshot: all spawns, then all component values; as a set, the messages
+   of snapshot_entity_msgs *)
+Lemma snapshot_spawns_values_elem pr (es : list (ent * entity)) m :
+  m ∈ concat ((fun '(e, en) => firstn 1 (snapshot_entity_msgs pr e en)) <$> es) ++
+      concat ((fun '(e, en) => skipn 1 (snapshot_entity_msgs pr e en)) <$> es) ->
+  exists e en, (e, en) ∈ es /\ m ∈ snapshot_entity_msgs pr e en.
+Proof.
+  intros Hin. apply elem_of_app in Hin as [Hin|Hin].
+  - apply elem_of_concat in Hin as [l [Hm Hl]].
+    apply elem_of_list_fmap in Hl as [[e en] [-> Hl]].
+    exists e, en. split; [exact Hl|].
+    rewrite <- (take_drop 1 (snapshot_entity_msgs pr e en)). apply elem_of_app. left. exact Hm.
+  - apply elem_of_concat in Hin as [l [Hm Hl]].
+    apply elem_of_list_fmap in Hl as [[e en] [-> Hl]].
+    exists e, en. split; [exact Hl|].
+    rewrite <- (take_drop 1 (snapshot_entity_msgs pr e en)). apply elem_of_app. right. exact Hm.
+Qed.
+
 (* the snapshot contains a parent link only if some live entity has a Parent *)
 Lemma build_full_sync_msgs pr m :
   ents_all no_parent pr -> m ∈ (build_full_sync pr).2 -> not_parented m.
@@ -405,9 +423,8 @@ Proof.
   destruct (serve_all pr1 AMesh) as [pr2 me] eqn:E2.
   destruct (serve_all pr2 AAudio) as [pr3 ma] eqn:E3.
   simpl. intros Hin.
-  repeat (apply elem_of_app in Hin as [Hin|Hin]).
-  - apply elem_of_concat in Hin as [l [Hm Hl]].
-    apply elem_of_list_fmap in Hl as [[e en] [-> _]].
+  apply elem_of_app in Hin as [Hin|Hin]; [|repeat (apply elem_of_app in Hin as [Hin|Hin])].
+  - apply snapshot_spawns_values_elem in Hin as (e & en & _ & Hm).
     unfold snapshot_entity_msgs in Hm.
     destruct (en_sync en); [|inversion Hm]. destruct (t_e2u pr !! e); [|inversion Hm].
     apply elem_of_cons in Hm as [->|Hm]; [exact I|].
@@ -2792,9 +2809,8 @@ Proof.
   destruct (serve_all pr1 AMesh) as [pr2 me] eqn:E2.
   destruct (serve_all pr2 AAudio) as [pr3 ma] eqn:E3.
   simpl. intros Hin.
-  repeat (apply elem_of_app in Hin as [Hin|Hin]).
-  - apply elem_of_concat in Hin as [l [Hm Hl]].
-    apply elem_of_list_fmap in Hl as [[e en] [-> _]].
+  apply elem_of_app in Hin as [Hin|Hin]; [|repeat (apply elem_of_app in Hin as [Hin|Hin])].
+  - apply snapshot_spawns_values_elem in Hin as (e & en & _ & Hm).
     unfold snapshot_entity_msgs in Hm.
     destruct (en_sync en); [|inversion Hm]. destruct (t_e2u pr !! e); [|inversion Hm].
     apply elem_of_cons in Hm as [->|Hm]; [exact I|].
